@@ -2,6 +2,7 @@ package main
 
 import (
 	"fmt"
+	"go/ast"
 	"go/constant"
 	"go/token"
 	"go/types"
@@ -817,6 +818,104 @@ func runC16(c *Ctx) {
 			if !found {
 				c.Undecided(spec.op+"#child-gas-was-paid", fn.Pos(), "no call of evm."+spec.callee+" found in "+spec.op)
 			}
+		}
+	}
+
+	// ------------------------------------------------------------ F12
+	c.Rule("C16.F12", "SIBLINGS", "gas returned never exceeds gas supplied: an opcode that hands the callee the call stipend when value is non-zero (opCall, opCallCode add params.CallStipend to the callee's gas) is priced by a gas function that charges the value-transfer surcharge in that case (gasCall, gasCallCode contain params.CallValueTransferGas). The stipend is free gas for the callee; without the surcharge every such call to an address without code hands back about 1600 gas more than it cost")
+	c.Min(2)
+	{
+		hasConst := func(fn *ssa.Function, k int64) bool {
+			for _, in := range allInstrs(fn) {
+				for _, op := range in.Operands(nil) {
+					if op == nil || *op == nil {
+						continue
+					}
+					if n, isK := constInt(*op); isK && n == k {
+						return true
+					}
+				}
+			}
+			return false
+		}
+		stipend, surcharge := int64(2300), int64(9000)
+		if cv := constOf(w, "params", "CallStipend"); cv != nil {
+			if v, ok := constant.Int64Val(constant.ToInt(cv)); ok {
+				stipend = v
+			}
+		}
+		if cv := constOf(w, "params", "CallValueTransferGas"); cv != nil {
+			if v, ok := constant.Int64Val(constant.ToInt(cv)); ok {
+				surcharge = v
+			}
+		}
+		for _, pair := range [][2]string{{"opCall", "gasCall"}, {"opCallCode", "gasCallCode"}} {
+			op, gf := w.Fn("core/vm", "", pair[0]), w.Fn("core/vm", "", pair[1])
+			c.sawFunc(fname(op))
+			c.sawFunc(fname(gf))
+			c.sites++
+			gives, charges := hasConst(op, stipend), hasConst(gf, surcharge)
+			ok := !gives || charges
+			c.Check(pair[0]+"~"+pair[1]+"#stipend-only-with-surcharge", gf.Pos(), ok, ifelse(ok, "the stipend is given and the value-transfer surcharge is charged", pair[0]+" gives the callee the call stipend for a non-zero value and "+pair[1]+" does not charge the value-transfer surcharge: gas is created"))
+		}
+	}
+
+	// ------------------------------------------------------------ F13
+	c.Rule("C16.F13", "EXHAUSTIVE", "a static call and everything beneath it changes nothing: the interpreter refuses, in read-only mode, exactly the operations whose table entry says writes — so in every instruction table of core/vm each operation literal installed at a state-changing opcode (SSTORE, LOG0…LOG4, CREATE, CREATE2, SELFDESTRUCT) carries writes: true, also when a later fork replaces the whole entry instead of one field (syntax-tree rule over the composite literals of jump_table.go)")
+	c.Min(8)
+	{
+		writers := map[string]bool{"SSTORE": true, "LOG0": true, "LOG1": true, "LOG2": true, "LOG3": true, "LOG4": true, "CREATE": true, "CREATE2": true, "SELFDESTRUCT": true}
+		hasWrites := func(cl *ast.CompositeLit) bool {
+			for _, el := range cl.Elts {
+				if kv, ok := el.(*ast.KeyValueExpr); ok {
+					if k, isId := kv.Key.(*ast.Ident); isId && k.Name == "writes" {
+						if v, isV := kv.Value.(*ast.Ident); isV && v.Name == "true" {
+							return true
+						}
+					}
+				}
+			}
+			return false
+		}
+		n := 0
+		ord := map[string]int{}
+		pkg := w.Pkg("core/vm")
+		for _, file := range pkg.Syntax {
+			if strings.HasSuffix(w.fileOf(file.Pos()), "_test.go") {
+				continue
+			}
+			ast.Inspect(file, func(nd ast.Node) bool {
+				switch x := nd.(type) {
+				case *ast.KeyValueExpr:
+					if k, isId := x.Key.(*ast.Ident); isId && writers[k.Name] {
+						if cl, isCL := x.Value.(*ast.CompositeLit); isCL {
+							n++
+							c.sites++
+							okW := hasWrites(cl)
+							ord[k.Name]++
+							c.Check(fmt.Sprintf("jump-table#%s-%d-writes", k.Name, ord[k.Name]), x.Pos(), okW, ifelse(okW, "writes: true", "the table entry installed at "+k.Name+" does not say writes: true: beneath a STATICCALL the interpreter lets it run"))
+						}
+					}
+				case *ast.AssignStmt:
+					if len(x.Lhs) == 1 && len(x.Rhs) == 1 {
+						if ix, isIx := x.Lhs[0].(*ast.IndexExpr); isIx {
+							if k, isId := ix.Index.(*ast.Ident); isId && writers[k.Name] {
+								if cl, isCL := x.Rhs[0].(*ast.CompositeLit); isCL {
+									n++
+									c.sites++
+									okW := hasWrites(cl)
+									ord[k.Name]++
+									c.Check(fmt.Sprintf("jump-table#%s-%d-writes", k.Name, ord[k.Name]), x.Pos(), okW, ifelse(okW, "writes: true", "the table entry installed at "+k.Name+" does not say writes: true: beneath a STATICCALL the interpreter lets it run"))
+								}
+							}
+						}
+					}
+				}
+				return true
+			})
+		}
+		if n == 0 {
+			c.Undecided("jump-table#writers", token.NoPos, "no operation literal installed at a state-changing opcode found in core/vm")
 		}
 	}
 
